@@ -454,8 +454,12 @@ class Typer:
             raise Decline(f'{self.caller}: {show(v)[:80]} is not a pattern')
         return r[1]
 
+    overrides: dict = {}
+
     def val(self, v):
         sc = self.sc
+        if v in self.overrides:
+            return self.overrides[v]
         k = v[0]
         if k == 'param':
             if v[1] in self.bound:
